@@ -4,3 +4,4 @@ pub mod colornames;
 pub mod css;
 pub mod num;
 pub mod sassval;
+pub mod sel;
